@@ -22,8 +22,9 @@ components of `ResolveRefsIn`) and `loadDoc` (`loadFromURIInternal` + `loadFromD
 * reads performed before an error are part of the outcome (the log is kept on every path).
 
 Path items have no `Value`: the code tests `!pathItem.isEmpty()` instead; the model treats a path item
-that was assigned from a loaded/drilled one as set (path-item files and targets are non-empty in the
-generated inputs).
+that was assigned from a loaded/drilled one as set, unless the file it was loaded from is empty as a path item
+(`File.emptyPI`: the item stays empty, is never "set", and is resolved again on every visit); inline path items
+are non-empty in the generated inputs.
 
 Abstracted (inputs of the model, validated by the differential run): `url.Parse` of a reference text
 (the case carries scheme/host/path/fragment), JSON/YAML parsing (`parses`), the position tables of the
@@ -121,6 +122,7 @@ structure File where
   typed : List (String × Node)     -- fragment → element found by the typed drill
   raw : List (String × Node)       -- fragment → element found by the raw drill of the re-read fallback
   conflict : Bool := false         -- as a single element it has both a `schema` and a `content` member (an error for a parameter)
+  emptyPI : Bool := false          -- read as a path item it is empty (`isEmpty()`: no summary, description, operation, server, parameter)
 
 def refsViews : List (Kind × List Node) → List Ref
   | [] => []
@@ -279,6 +281,9 @@ def resolve (inp : Input) : Nat → Cx → Home → Bool → Node → St → St 
                 if file.parses then
                   -- resolveParameterRef: "cannot contain both schema and content in a parameter"
                   if kind = .parameter && file.conflict then (tick 22 (logRead al u { st with inprog := r.text :: st.inprog }), .err) else
+                  -- `*pathItem = p` with an empty p: nothing to walk, the item stays unset, the callbacks copy an empty item
+                  if kind = .pathItem && file.emptyPI then
+                    (tick 23 (unvisit r.text kind none (logRead al u { st with inprog := r.text :: st.inprog })), .ok none) else
                   match walk inp f ⟨cx.doc, some u⟩ (some u, st.log.length + 1) (file.elemAs kind)
                       (setMark copy (home, id) ((some u, st.log.length + 1), file.elemAs kind)
                         (tick 4 (logRead al u { st with inprog := r.text :: st.inprog }))) with
